@@ -2,10 +2,19 @@
 
 package parser
 
-import "github.com/moorara/algo/grammar"
+import (
+	"fmt"
+
+	"github.com/moorara/algo/grammar"
+)
 
 // VerifTerminals exposes the ordered terminal list of the EBNF grammar to the verification harness.
 func VerifTerminals() []grammar.Terminal { return terminals }
 
 // VerifProductions exposes the ordered production list of the EBNF grammar to the verification harness.
 func VerifProductions() []*grammar.Production { return productions }
+
+// VerifSharedState prints the package-level tables that every parse reads (read-only by convention).
+func VerifSharedState() string {
+	return fmt.Sprintf("Predefs=%v terminals=%v nonTerminals=%v productions=%v precedences=%v", Predefs, terminals, nonTerminals, productions, precedences)
+}
